@@ -609,6 +609,13 @@ package kafka
 
 
 // $left: the member id the group currently holds has been given up (LeaveGroup sent) or there is none.
+// leaveGroup runs after the group was closed (cg.done is closed by then) and gets its connection from coordinator(): the
+// coordinator lookup must not depend on the group still being open, or closing the group could never send LeaveGroup
+//@ func (*ConsumerGroup).coordinator
+//@   option noframe
+//@   option only nowait
+//@   modifies heap
+//@   nowait cg.done
 //@ func (*ConsumerGroup).leaveGroup
 //@   trusted sends LeaveGroup for memberID on a fresh coordinator connection (best effort); nothing to do for an empty id
 //@   modifies cg.$left
